@@ -5,7 +5,7 @@ CONSTANTS
   MaxCmds = 3
   MaxFaults = 1
   MaxNs = 1
-  MaxPerPool = 4
+  MaxPerPool = 7
   FOps = {"get", "begin", "setac", "exec", "commit", "rollback", "ping"}
   GenLen = 2
 INVARIANTS Emit TypeOK C18_TxStatementOnTxMaster C18_OneConnPerSlice C18_EndReachesExactlyTx C18_ReleasedAfterEnd
